@@ -372,6 +372,9 @@ func ApplyHeader(s State, bh types.BlockHeader, targetTimestamp time.Time) State
 	if s.Index.Height > 0 && s.Index.ID != bh.ParentID {
 		panic("consensus: cannot apply non-child block")
 	}
+	// timestamps are encoded, and hashed into the ID, with second precision; the
+	// state must not depend on more than that
+	bh.Timestamp = bh.Timestamp.Truncate(time.Second)
 
 	next := s
 	if bh.ParentID == (types.BlockID{}) {
